@@ -1001,7 +1001,7 @@ func runPipeline(c *hx.Ctx, r *hx.Rng, ri int, twoVers, useUnpub, concurrent boo
 			}
 			return n
 		}
-		deadline := time.Now().Add(30 * time.Second)
+		deadline := time.Now().Add(120 * time.Second)
 		for (pl.q.Len() > 0 || anchoredCount() < totalAccepted()) && time.Now().Before(deadline) {
 			time.Sleep(2 * time.Millisecond)
 		}
